@@ -63,6 +63,14 @@ impl StunMessageTimeout {
         None
     }
 
+    #[cfg(feature = "verif")]
+    pub(crate) fn verif_entries(&self) -> Vec<(TransactionId, Instant, Duration)> {
+        self.timeouts
+            .iter()
+            .map(|item| (item.0.transaction_id, item.0.instant, item.0.timeout))
+            .collect()
+    }
+
     pub fn check(&mut self, instant: Instant) -> Vec<TransactionId> {
         let mut expired = Vec::new();
         while let Some(item) = self.timeouts.peek() {
